@@ -120,8 +120,17 @@ func c07Run(t *testing.T, ops []string, o *Out) {
 				}
 				c07Sleep(atoi(m["dt"]))
 				h := &rtp.Header{Version: 2, SequenceNumber: uint16(atoi(m["seq"])), Timestamp: uint32(atoi(m["ts"])), SSRC: uint32(atoi(m["ssrc"]))}
-				if _, err := w.Write(h, make([]byte, atoi(m["len"])), interceptor.Attributes{}); err != nil {
+				payload := make([]byte, atoi(m["len"]))
+				if _, err := w.Write(h, payload, interceptor.Attributes{}); err != nil {
 					panic(err)
+				}
+				// rep=N: N further packets of the same frame (same timestamp, same instant, consecutive numbers) — long
+				// streams make the 32-bit packet and octet counters wrap
+				for i := 0; i < atoi(m["rep"]) && m["rep"] != ""; i++ {
+					h.SequenceNumber++
+					if _, err := w.Write(h, payload, interceptor.Attributes{}); err != nil {
+						panic(err)
+					}
 				}
 			case name == "tick" && need("dt"):
 				c07Sleep(atoi(m["dt"]))
@@ -149,6 +158,19 @@ func c07Gen(r *Rng, tier string, idx int) Case {
 	classes := []string{"inorder", "seqwrap", "ooo", "frames", "tswrap", "ts0first", "payload", "rates",
 		"multi", "tickfirst", "rebind", "longgap", "mixed"}
 	cl := classes[idx%len(classes)]
+	if idx%211 == 7 {
+		// counters beyond 2^32 octets: one long stream, reports before and after the wrap
+		n := r.Pick(2941758, 2941759, 2950000, 3100000)
+		return Case{Class: "bigcount", Ops: []string{
+			fmt.Sprintf("bind ssrc=5 rate=90000 latest=%d", r.Intn(2)),
+			"write ssrc=5 seq=65530 ts=1000 len=1460 dt=1000",
+			"tick dt=1000",
+			fmt.Sprintf("write ssrc=5 seq=65531 ts=1000 len=1460 dt=10 rep=%d", n),
+			"tick dt=5000",
+			fmt.Sprintf("write ssrc=5 seq=%d ts=4000 len=%d dt=10", (65532+n)&0xFFFF, r.Pick(0, 1, 1460)),
+			"tick dt=20000000",
+		}}
+	}
 	latest := r.Intn(2)
 	if cl == "ooo" {
 		latest = (idx / len(classes)) % 2
